@@ -220,3 +220,30 @@ def run_single_path(fn, name="single"):
     if p.exception is not None:
         raise p.exception
     return p.result
+
+
+def explore(fn, name="explore", max_paths=8):
+    """All feasible paths of fn (a data-dependent guard in the analysed code is part of its behaviour and is explored on both
+    sides).  A path budget overrun is a harness error (SymError)."""
+    ex = Explorer(max_paths=max_paths, name=name)
+    try:
+        return ex.run(fn)
+    except PathBudgetExceeded as e:
+        raise SymError("%s: %s" % (name, e))
+
+
+class path_assumptions:
+    """Within the block the path condition of `p` is part of the context's assumptions, so every solver query of the harness
+    (identities, witnesses, models) is relative to that path."""
+
+    def __init__(self, p):
+        self.pc = list(p.path_condition())
+
+    def __enter__(self):
+        S.current().cond_assumptions.extend(self.pc)
+        return self
+
+    def __exit__(self, *a):
+        if self.pc:
+            del S.current().cond_assumptions[-len(self.pc):]
+        return False
